@@ -3,8 +3,8 @@
 Require Import String.
 Require Import List ZArith QArith Bool Lia.
 Import ListNotations.
-Require Import LV.Err.ErrBase LV.Gen.ErrnoGen LV.Err.ContractModel LV.Err.ContractProofs LV.Err.RefutedModel
-               LV.Err.NewModel.
+Require Import LV.Err.ErrBase LV.Gen.ErrnoGen LV.Err.OrderModel LV.Err.OrderProofs LV.Err.ContractModel
+               LV.Err.ContractProofs LV.Err.RefutedModel LV.Err.ContractProofs2 LV.Err.NewModel.
 Open Scope Z_scope.
 
 Ltac ifs :=
@@ -70,7 +70,7 @@ Proof.
     + unfold check_solve, usage1. destruct (negb (v_fvalid s)).
       * intro H; inversion H; subst; repeat split; left; reflexivity.
       * destruct kernel; intro H; inversion H; subst. repeat split. right. reflexivity.
-  - intro H; inversion H; subst. repeat split.
+  - destruct (fst (ncall_handle c)); intro H; inversion H; subst. repeat split.
 Qed.
 
 (* errno classes: usage -> EINVAL; singular 'a' -> EDOM; a solve failure -> the class of the
@@ -89,14 +89,107 @@ Proof.
       right. right. eexists. split; [reflexivity|]. simpl. apply errno_table_l.
 Qed.
 
-Lemma new_total_l : forall valid h c, check_new valid h c = Pass \/ exists v r, check_new valid h c = Refuse v r.
-Proof. intros valid h c. destruct (check_new valid h c) as [|v r]; [left; reflexivity | right; eauto]. Qed.
-
-Lemma new_refused_unchanged_l : forall (payload : Type) valid work (o : nobj payload) c v r,
-  snd (new_step payload valid work o c) = Refuse v r -> fst (new_step payload valid work o c) = o.
+Lemma check_new_some_no_fault : forall valid s c, check_new_some valid s c <> Fault.
 Proof.
-  intros payload valid work o c v r. unfold new_step.
-  destruct (check_new_some valid (no_sum payload o) c); simpl; [discriminate | reflexivity].
+  intros valid s c. destruct c; simpl.
+  - unfold check_set_fv, usage1. destruct fv; ifs; discriminate.
+  - discriminate.
+  - unfold check_add, usage1. ifs; discriminate.
+  - unfold check_set_m_error, usage1. destruct nf, tr; ifs; discriminate.
+  - unfold check_set_pvalue, usage1. ifs; discriminate.
+  - unfold check_set_tolerance, usage1. ifs; discriminate.
+  - unfold check_set_tolerance, usage1. ifs; discriminate.
+  - unfold check_set_iteration, usage1. ifs; discriminate.
+  - unfold check_solve, usage1. destruct (negb (v_fvalid s)); [discriminate|]. destruct kernel; discriminate.
+Qed.
+
+(* whatever _vnacal_new_add_common accepts has passed the validation of every parameter *)
+Lemma check_add_pass_validated : forall valid s a,
+  check_add valid s a = Pass -> forallb (check_parameter valid (v_params s)) (aa_cells a) = true.
+Proof.
+  intros valid s a H. unfold check_add, usage1 in H.
+  repeat match type of H with
+         | (if ?b then _ else _) = Pass =>
+             lazymatch b with
+             | negb (forallb _ _) => fail
+             | _ => destruct b; [discriminate|]
+             end
+         end.
+  destruct (forallb (check_parameter valid (v_params s)) (aa_cells a)); [reflexivity | discriminate].
+Qed.
+
+(* as found: the argument checks of every function of the family precede its first write *)
+Lemma new_orders_checks_first_l : forall c, ncall_ordered c = true.
+Proof. intro c. destruct c; reflexivity. Qed.
+
+Section NewStepProofs.
+  Variable payload : Type.
+  Variable valid unknown : Z -> bool.
+  Variable work : nobj payload -> ncall -> nobj payload.
+  Variable pre : nobj payload -> nobj payload.
+  Let nrun := new_run payload valid unknown work pre.
+  Let nstep := new_step payload valid unknown work pre.
+
+  (* for every function whose generated order has the argument checks before the first write: a call
+     refused by an argument check leaves the object - summary, registered parameters, rest - equal *)
+  Lemma new_arg_refused_unchanged_l : forall o c o' v r,
+    ncall_ordered c = true -> nrun o c = (o', MRefused v r) -> o' = o.
+  Proof.
+    intros o c o' v r H R. unfold nrun, new_run, new_body in R.
+    eapply two_phase_refused_unchanged; eassumption.
+  Qed.
+
+  (* "a rejected standard adds nothing", about the tied registration in the order found in the C text:
+     when the validation pass precedes the registration loop (gen_add_common_prevalidates) and the
+     argument checks precede the first write, EVERY refusal of an add - usage, singular 'a', incomplete
+     S - leaves the whole modelled object as it was, and no refusal comes from the registration *)
+  Lemma rejected_standard_adds_nothing_l : forall o a v r,
+    gen_add_common_prevalidates = true -> ncall_ordered (NAdd a) = true ->
+    snd (nstep o (NAdd a)) = Refuse v r ->
+    fst (nstep o (NAdd a)) = o /\ exists v' r', nrun o (NAdd a) = (o, MRefused v' r').
+  Proof.
+    intros o a v r G H. unfold nstep, new_step. fold (nrun o (NAdd a)).
+    unfold nrun, new_run, new_body. rewrite H, two_phase_run. unfold arg_check, new_work. cbn [check_new_some].
+    pose proof (check_new_some_no_fault valid (no_sum payload o) (NAdd a)) as NF. cbn [check_new_some] in NF.
+    destruct (check_add valid (no_sum payload o) a) as [|v1 r1|] eqn:E; [|simpl; intros _; split; [reflexivity | eauto] | contradiction].
+    pose proof (validated_standard_accepted_l valid unknown _ _ G (check_add_pass_validated _ _ _ E)) as P.
+    destruct (add_standard_current valid unknown (v_params (no_sum payload o)) (aa_cells a)) as [p' oc].
+    simpl in P. subst oc. simpl. discriminate.
+  Qed.
+
+  (* link to the decision function *)
+  Lemma new_step_outcome_l : forall o c,
+    gen_add_common_prevalidates = true -> ncall_ordered c = true ->
+    snd (nstep o c) = check_new_some valid (no_sum payload o) c.
+  Proof.
+    intros o c G H. unfold nstep, new_step. fold (nrun o c). unfold nrun, new_run, new_body. rewrite H, two_phase_run.
+    pose proof (check_new_some_no_fault valid (no_sum payload o) c) as NF.
+    destruct c as [fv rb| |a|e lo hi n fv nf tr s16|x|x|x|n|kernel]; unfold arg_check, new_work; cbn [check_new_some] in *.
+    1, 2, 4, 5, 6, 7, 8:
+      try reflexivity;
+      match goal with |- context [match ?x with Pass => _ | Refuse _ _ => _ | Fault => _ end] =>
+        destruct x as [|v1 r1|]; [reflexivity | reflexivity | contradiction] end.
+    - (* add *)
+      destruct (check_add valid (no_sum payload o) a) as [|v1 r1|] eqn:E; [|reflexivity | contradiction].
+      pose proof (validated_standard_accepted_l valid unknown _ _ G (check_add_pass_validated _ _ _ E)) as P.
+      destruct (add_standard_current valid unknown (v_params (no_sum payload o)) (aa_cells a)) as [p' oc].
+      simpl in P. subst oc. reflexivity.
+    - (* solve *)
+      unfold check_solve, usage1. destruct (negb (v_fvalid (no_sum payload o))); [reflexivity|].
+      destruct kernel; reflexivity.
+  Qed.
+End NewStepProofs.
+
+(* model variant (registration without the validation pass: the order before the repair of D17, the
+   one the tied model takes when gen_add_common_prevalidates = false): the refusal comes out of the
+   registration loop, after the first write, and the parameter summary has changed *)
+Lemma model_variant_register_first_refusal_is_late_l :
+  exists valid unknown s cells s',
+    check_parameter valid s 5 = true /\
+    add_standard_register_first valid unknown s cells = (s', Refuse VM1 (Via USAGE)) /\ s' <> s.
+Proof.
+  exists (fun h => (0 <=? h) && (h <=? 5)), (fun h => h =? 5), (mknew [0] 0 0), [5; 99], (mknew [0; 5] 1 0).
+  split; [reflexivity|]. split; [vm_compute; reflexivity | discriminate].
 Qed.
 
 (* an accepted frequency vector is free of NaN, non-negative and strictly ascending *)
@@ -247,16 +340,41 @@ Proof.
     + repeat match goal with
              | |- context [match ?x with _ => _ end] => destruct x
              end; intro HH; inversion HH; subst; split; reflexivity.
-  - intro H; inversion H; subst; split; reflexivity.
+  - destruct (fst (pcall_handle c)); intro H; inversion H; subst; split; reflexivity.
 Qed.
 
-Lemma param_total_l : forall h c, check_param h c = Pass \/ exists v r, check_param h c = Refuse v r.
-Proof. intros h c. destruct (check_param h c) as [|v r]; [left; reflexivity | right; eauto]. Qed.
-
-Lemma param_refused_unchanged_l : forall work tb c v r,
-  snd (param_step work tb c) = Refuse v r -> fst (param_step work tb c) = tb.
+Lemma check_param_some_no_fault : forall tb c, check_param_some tb c <> Fault.
 Proof.
-  intros work tb c v r. unfold param_step. destruct (check_param_some tb c); simpl; [discriminate | reflexivity].
+  intros tb c. destruct c; simpl.
+  - discriminate.
+  - destruct fv; ifs; discriminate.
+  - ifs; discriminate.
+  - destruct sigma; ifs; discriminate.
+  - ifs; discriminate.
+  - repeat match goal with
+           | |- context [match ?x with _ => _ end] => destruct x
+           end; discriminate.
+Qed.
+
+(* as found: every function of the parameter family makes its tests before its first write *)
+Lemma param_orders_checks_first_l : forall c, checks_first (pcall_order c) = true.
+Proof. intro c. destruct c; reflexivity. Qed.
+
+Lemma param_step_spec_l : forall work pre tb c,
+  checks_first (pcall_order c) = true ->
+  param_step work pre tb c = (match check_param_some tb c with Pass => work tb c | _ => tb end, check_param_some tb c).
+Proof.
+  intros work pre tb c H. unfold param_step, param_run, param_body. rewrite H, two_phase_run.
+  pose proof (check_param_some_no_fault tb c) as NF.
+  destruct (check_param_some tb c) as [|v r|]; [reflexivity | reflexivity | contradiction].
+Qed.
+
+Lemma param_refused_unchanged_l : forall work pre tb c v r,
+  checks_first (pcall_order c) = true ->
+  snd (param_step work pre tb c) = Refuse v r -> fst (param_step work pre tb c) = tb.
+Proof.
+  intros work pre tb c v r H. rewrite (param_step_spec_l work pre tb c H). simpl.
+  destruct (check_param_some tb c); [discriminate | reflexivity | reflexivity].
 Qed.
 
 (* handles: accepted exactly when they name a live parameter (or, for delete, a predefined one) *)
@@ -293,7 +411,7 @@ Proof.
   - unfold check_convert_some, usage1. destruct on; [intro H; inversion H; split; reflexivity|].
     destruct ((nt <? 0) || (nt >=? 11)); [intro H; inversion H; split; reflexivity|].
     destruct (conv_req (d_type s) nt) as [[| | |]|]; ifs; intro H; inversion H; split; reflexivity.
-  - intro H; inversion H; split; reflexivity.
+  - destruct (fst gen_handle_vnadata_convert); intro H; inversion H; split; reflexivity.
 Qed.
 
 Lemma type_cases : forall t, 0 <= t <= 10 ->
@@ -346,6 +464,23 @@ Lemma cleanup_last_disturbance_l : forall e steps e' rest,
 Proof.
   intros e steps e' rest F. unfold errno_after_cleanup. rewrite fold_left_app. simpl.
   apply cleanup_preserves_reported_errno_l. exact F.
+Qed.
+
+(* applied to the generated call lists: whatever each call does to errno (effect), as long as every
+   call of the benign list leaves it alone - the trusted reading of fclose(3), free(3), libyaml and the
+   library's own destructors WHEN THEY SUCCEED - errno on return from each of the four clean-up paths
+   is the reported one *)
+Lemma cleanup_paths_preserve_errno_l : forall (effect : String.string -> option errno_class),
+  (forall c, existsb (String.eqb c) benign_cleanup_calls = true -> effect c = None) ->
+  forall p e, In p gen_cleanup_calls -> errno_after_cleanup e (map effect (snd p)) = e.
+Proof.
+  intros effect B p e Hp. apply cleanup_preserves_reported_errno_l.
+  assert (A : all_benign (snd p) = true).
+  { assert (F : forallb (fun p => all_benign (snd p)) gen_cleanup_calls = true) by (vm_compute; reflexivity).
+    rewrite forallb_forall in F. apply F. exact Hp. }
+  unfold all_benign in A. rewrite forallb_forall in A.
+  apply Forall_forall. intros st Hst. apply in_map_iff in Hst. destruct Hst as [c [Hc Hin]]. subst st.
+  apply B. apply A. exact Hin.
 Qed.
 
 (* every call found on the clean-up paths of vnadata_save, vnadata_load, vnacal_save, vnacal_load
